@@ -268,7 +268,7 @@ def transpile_structure(
         parameter_total = 0
         function_parameters = ""
         for parameter in struct.parameters:
-            if parameter.isnumeric():
+            if parameter.isdecimal():
                 parameter_total += int(parameter)
                 function_parameters += (
                     f"parameters += wrapify(arg_stack, {int(parameter)}"
